@@ -177,15 +177,28 @@ func (l *Lab) Idle() bool {
 }
 
 // ExecSQL runs one concrete statement as a branch (autocommit or explicit transaction).
-func (l *Lab) ExecSQL(ctx context.Context, q string, args []interface{}, explicit bool) error {
+func (l *Lab) ExecSQL(ctx context.Context, q string, args []interface{}, explicit bool) (err error) {
 	if !explicit {
-		_, err := l.DB.ExecContext(ctx, q, args...)
+		defer func() {
+			if p := recover(); p != nil {
+				err = fmt.Errorf("panic: %v", p)
+			}
+		}()
+		_, err = l.DB.ExecContext(ctx, q, args...)
 		return err
 	}
 	tx, err := l.DB.BeginTx(ctx, nil)
 	if err != nil {
 		return err
 	}
+	defer func() {
+		// what a careful application does (defer tx.Rollback()): a panic out of the driver must not
+		// leave the transaction open
+		if p := recover(); p != nil {
+			_ = tx.Rollback()
+			err = fmt.Errorf("panic: %v", p)
+		}
+	}()
 	if _, err := tx.ExecContext(ctx, q, args...); err != nil {
 		_ = tx.Rollback()
 		return err
@@ -317,16 +330,21 @@ func (j *jimg) rows(s *Schema, nkeys int) map[int]Row {
 
 // RunBranch executes the statements of one branch through the proxy inside the global transaction
 // carried by ctx: one statement in autocommit use, or all of them in an explicit transaction.
-func (l *Lab) RunBranch(ctx context.Context, s *Schema, stmts []Stmt, style Style) error {
+func (l *Lab) RunBranch(ctx context.Context, s *Schema, stmts []Stmt, style Style) (err error) {
 	if len(stmts) == 1 && !style.Explicit {
 		q, args := s.SQL(stmts[0], style)
-		_, err := l.DB.ExecContext(ctx, q, args...)
-		return err
+		return l.ExecSQL(ctx, q, args, false)
 	}
 	tx, err := l.DB.BeginTx(ctx, nil)
 	if err != nil {
 		return err
 	}
+	defer func() {
+		if p := recover(); p != nil {
+			_ = tx.Rollback()
+			err = fmt.Errorf("panic: %v", p)
+		}
+	}()
 	for _, st := range stmts {
 		q, args := s.SQL(st, style)
 		if _, err := tx.ExecContext(ctx, q, args...); err != nil {
